@@ -1,4 +1,3 @@
 package main
 
-func specPrelude(x *Exec, quant bool) []string { return nil }
 func cmdSelftest(args []string) int { return 2 }
